@@ -11,6 +11,8 @@ import Pdt.Model.Ops
 import Pdt.Model.Impl
 import Pdt.Model.Strings
 import Pdt.Model.Export
+import Pdt.Model.Spec
+import Pdt.Model.Sql
 import Pdt.Gen.OpTable
 import Pdt.Gen.Casts
 
@@ -43,9 +45,34 @@ def cacheJson (c : Cache) : Json :=
     ("columns", Json.arr (c.columns.map Json.str).toArray),
     ("n_derived", Json.num c.derivedFrom.length)]
 
+def cellOfJson (j : Json) : Except String Val :=
+  match j with
+  | .null => pure .null
+  | .bool b => pure (.bool b)
+  | .str s => pure (.str s)
+  | .num n => if n.exponent == 0 then pure (.int n.mantissa) else throw "untagged float cell"
+  | o => do let (v, _) ← Codec.litOfJson o; pure v
+
+/-- table data (when present in the request): name ↦ rows -/
+def dbOfJson (tables : Array Json) : Except String Spec.DB :=
+  tables.toList.mapM (fun t => do
+    let name ← (← t.getObjVal? "name").getStr?
+    let cols ← (← t.getObjVal? "cols").getArr?
+    let colVals ← cols.toList.mapM (fun c => match c.getObjVal? "vals" with
+      | .ok v => do (← v.getArr?).toList.mapM cellOfJson
+      | .error _ => pure [])
+    let n := (colVals.map List.length).foldl max 0
+    pure (name, (List.range n).map (fun i => colVals.map (fun c => c.getD i .null))))
+
+def frameJson (f : List String × List (List Val)) : Json :=
+  Json.mkObj [("names", Json.arr (f.1.map Json.str).toArray),
+              ("rows", Json.arr (f.2.map (fun r => Json.arr (r.map (fun v => Json.str v.toText)).toArray)).toArray)]
+
 /-- run a program through the front-end model; one observation object per statement -/
 def runProgram (backend : Backend) (prog : Json) : Except String Json := do
   let tables ← (← prog.getObjVal? "tables").getArr?
+  let db ← dbOfJson tables
+  let wantSpec := Codec.getBool prog "spec" false
   let stmts ← (← prog.getObjVal? "stmts").getArr?
   let mut env : Env := {}
   let mut out : Array Json := #[]
@@ -67,6 +94,17 @@ def runProgram (backend : Backend) (prog : Json) : Except String Json := do
       let t : Tbl := ⟨.source nid tname schema backend, Cache.ofSource nid schema backend⟩
       env := env2.bind id t
       out := out.push (Json.mkObj (base ++ [("outcome", Json.str "ok"), ("cache", cacheJson t.cache)]))
+    else if op == "export" && wantSpec then
+      let src ← (← st.getObjVal? "src").getStr?
+      match env.table? src with
+      | none => out := out.push (Json.mkObj (base ++ [("outcome", Json.str "skipped")]))
+      | some t =>
+        let specF := frameJson (Spec.run db t.ast).frame
+        let sqlF : Json := if backend == .polars then Json.null else
+          match Sql.compile t.ast ((t.cache.uuidToName.map (·.1)).map (fun u => (u, 1))) with
+          | .ok (c, _) => frameJson (Sql.run db c)
+          | .error e => Json.str (match e with | .assertion w => "AssertionError:" ++ w | .keyError => "KeyError" | .valueError => "ValueError")
+        out := out.push (Json.mkObj (base ++ [("outcome", Json.str "ok"), ("spec", specF), ("sql", sqlF)]))
     else if op == "export" || op == "build_query" || op == "expr" then
       out := out.push (Json.mkObj (base ++ [("outcome", Json.str "n/a")]))
     else
